@@ -393,7 +393,11 @@ def _collect_colon_trivia(
             continue
         if not (colon_node.end_byte <= child.start_byte < body_node.start_byte):
             continue
-        if child.start_point.row == colon_node.end_point.row:
+        if (
+            after_colon_comment is None
+            and child.start_point.row == colon_node.end_point.row
+        ):
+            # The slot holds one comment; further ones go before the body.
             after_colon_comment = Comment.from_cst(child)
             inline_comment_node = child
         else:
